@@ -51,7 +51,8 @@ def _worker(arg):
                            backend='z3', ms=0)
                 out['vcs'].append(rec)
                 continue
-            r = solve.check_valid(vc.pc, vc.goal, all_backends=(tier == 'thorough'))
+            r = solve.check_valid(vc.pc, vc.goal, all_backends=(tier == 'thorough'),
+                                  z3_timeout_ms=getattr(chk, 'z3_timeout_ms', None))
             rec.update(verdict=r['verdict'], backend=r['backend'], ms=r['ms'], detail=r['detail'], all=r.get('all'))
             rec['goal_head'] = solve.head(vc.goal, 300)
             if r['verdict'] == 'refuted':
